@@ -34,7 +34,7 @@ def scratch_dir(prefix="gtverif_"):
 _SUMMARY = re.compile(r"(\d+) states generated, (\d+) distinct states found, (\d+) states left on queue")
 
 
-def _run_one(workdir, module, cfg_text, prime, timeout, simulate=None, workers=1, heap="2g", extra_consts=None):
+def _run_one(workdir, module, cfg_text, prime, timeout, simulate=None, workers=1, heap="2g", extra_consts=None, extra_env=None):
     cfg_name = f"{module}_{prime}.cfg"
     txt = re.sub(r"(?m)^(\s*P\s*=\s*)\d+", lambda m: m.group(1) + str(prime), cfg_text)
     for k, v in (extra_consts or {}).items():
@@ -51,6 +51,7 @@ def _run_one(workdir, module, cfg_text, prime, timeout, simulate=None, workers=1
     t0 = time.time()
     env = dict(os.environ)
     env.pop("JAVA_TOOL_OPTIONS", None)
+    env.update(extra_env or {})
     with open(out_path, "w") as out:
         try:
             rc = subprocess.run(cmd, cwd=workdir, stdout=out, stderr=subprocess.STDOUT, timeout=timeout, env=env).returncode
@@ -64,7 +65,11 @@ def _run_one(workdir, module, cfg_text, prime, timeout, simulate=None, workers=1
         for line in f:
             if line.startswith('"'):
                 try:
-                    behaviours.append(json.loads(json.loads(line)))
+                    obj = json.loads(json.loads(line))
+                    if isinstance(obj, dict) and "hist" in obj:      # trace validation: {"tid": .., "hist": [...]}
+                        obj = [{"act": "Trace", "a": {"tid": obj["tid"]}, "id": 0, "mid": 0, "f": [], "o": [], "mo": [],
+                                "ret": []}] + obj["hist"]
+                    behaviours.append(obj)
                 except Exception as e:  # pragma: no cover
                     errors.append(f"unparsable export line: {e}")
             elif line.startswith("Error:") or "Exception" in line and "at " not in line[:4]:
@@ -88,7 +93,7 @@ def _run_one(workdir, module, cfg_text, prime, timeout, simulate=None, workers=1
 
 
 def run_model(module: str, cfg_text: str, nprimes: int = 8, timeout: int = 1800, simulate=None,
-              workers: int = 0, extra_consts=None, keep=False):
+              workers: int = 0, extra_consts=None, keep=False, extra_env=None):
     """Returns (merged_behaviours, stats). merged behaviour = list of steps; the plain part ("act", "a",
     "id", "mid") taken from the first prime, the field-coded parts ("f", "o", "mo", "ret") decoded exactly."""
     primes = tuple(decode.PRIMES[:nprimes])
@@ -102,7 +107,7 @@ def run_model(module: str, cfg_text: str, nprimes: int = 8, timeout: int = 1800,
             workers = 1 if simulate else max(1, ncpu // len(primes))
         par = max(1, min(len(primes), ncpu // max(1, workers)))
         with ThreadPoolExecutor(max_workers=par) as ex:
-            futs = [ex.submit(_run_one, workdir, module, cfg_text, p, timeout, simulate, workers, "2g", extra_consts)
+            futs = [ex.submit(_run_one, workdir, module, cfg_text, p, timeout, simulate, workers, "2g", extra_consts, extra_env)
                     for p in primes]
             results = [f.result() for f in futs]
     finally:
